@@ -686,7 +686,9 @@ class DataType(object):
         split_data_type = self.type.split(':')
 
         # Because we do not allow whitespace in base64 values,
-        # we use a pattern to restrict the data type.
+        # we use a pattern to restrict the data type. The pattern
+        # also rejects characters outside the base64 alphabet, which
+        # the base64Binary implementation of libxml2 silently skips.
         element = e.data(
             e.param('1', name='minLength'),
             type='base64Binary'
@@ -696,7 +698,7 @@ class DataType(object):
             # A maximum length of zero means that the length is not limited.
             etree.SubElement(element, 'param', name='maxLength').text = split_data_type[1]
 
-        etree.SubElement(element, 'param', name='pattern').text = r'\S*'
+        etree.SubElement(element, 'param', name='pattern').text = r'[A-Za-z0-9+/]*={0,2}'
 
         return element
 
